@@ -160,6 +160,12 @@ def _idx_terms(t, acc):
         for y in t:
             _idx_terms(y, acc)
         return acc
+    if t[0] == "addr" and t[1][0] == "idx":
+        # &a[i] computes an address, it does not access a[i] (one past the end is a valid pointer); the subscripts
+        # inside the base and the index expression are still accesses
+        _idx_terms(t[1][1], acc)
+        _idx_terms(t[1][2], acc)
+        return acc
     if t[0] == "idx":
         acc.append(t)
     if t[0] == "poly":
@@ -252,6 +258,8 @@ def split_base_offset(a):
 def ctor_relations(v):
     """(record, field) -> expression over this-> fields, read from the single user constructor"""
     from .pairing import owned_fields
+    from .ioseq import immutable_int_fields
+    immutable = immutable_int_fields(v)
     rel = {}
     for rname, rec in v.records.items():
         ctors = [f for f in v.defined() if f.get("record") == rname and f.get("kind") == "ctor" and not f.get("implicit")
@@ -279,6 +287,8 @@ def ctor_relations(v):
             fld_t = next((f["t"] for f in rec["fields"] if f["n"] == x["lv"][2]), "")
             if fld_t.replace("const ", "").strip() not in ("int", "unsigned int", "long", "unsigned long"):
                 continue
+            if (rname, x["lv"][2]) not in immutable:
+                continue          # a field that is reassigned later (e.g. LweSample::b = 0) is no dimension relation
             rel[(rname, x["lv"][2])] = val2
     return rel
 
